@@ -166,6 +166,8 @@ def run(rep, tier):
         clause_b(facts, rep)
         clause_c(facts, rep)
         clause_d(facts, rep)
+        from .. import narrowing
+        narrowing.check(facts, rep, 'E3.lossless-narrowing', ('itoa.h',), min_sites=1)
     rep.trust('clang 14 front end and constant evaluator', 'Intel intrinsic lane semantics in sv/sse_interp.py',
               'exact-division theorem (Hacker\'s Delight 10-9)', 'Python big integers')
     rep.assumptions += [
